@@ -11,6 +11,7 @@ import (
 	"sort"
 	"strings"
 
+	"github.com/cosmos/cosmos-proto/anyutil"
 	"github.com/cosmos/cosmos-proto/internal/testprotos/test3"
 	"github.com/cosmos/cosmos-proto/internal/verifsim/rndcorpus"
 	"github.com/cosmos/cosmos-proto/internal/verifsim/shapes"
@@ -23,6 +24,7 @@ import (
 	"google.golang.org/protobuf/reflect/protoregistry"
 	"google.golang.org/protobuf/runtime/protoiface"
 	"google.golang.org/protobuf/runtime/protoimpl"
+	"google.golang.org/protobuf/types/known/anypb"
 )
 
 var corpus = []proto.Message{
@@ -151,6 +153,13 @@ func marshalVariant(m proto.Message, api int, prefix []byte) (b []byte, err erro
 			return nil, fmt.Errorf("MarshalAppend returned fewer bytes than the prefix")
 		}
 		return out[len(prefix):], nil
+	case 3:
+		// the module's own Any helper takes marshal options too
+		a := &anypb.Any{}
+		if err := anyutil.MarshalFrom(a, m, proto.MarshalOptions{Deterministic: true}); err != nil {
+			return nil, err
+		}
+		return a.Value, nil
 	default:
 		meth := m.ProtoReflect().ProtoMethods()
 		if meth == nil || meth.Marshal == nil {
@@ -348,7 +357,10 @@ func run(c *simrun.Ctx) *simrun.Violation {
 		}
 		reps := 2 + t.Draw("reps", 7)
 		for r := 0; r < reps; r++ {
-			api := t.Draw("api", 3)
+			api := t.Draw("api", 8) // 0 Marshal, 1 MarshalAppend, 2 Methods.Marshal, 3 anyutil.MarshalFrom
+			if api > 3 {
+				api %= 3
+			}
 			var prefix []byte
 			if api == 1 {
 				prefix = make([]byte, t.Draw("prefixlen", 5), 8+t.Draw("prefixcap", 64))
